@@ -309,3 +309,5 @@ def run(ctx):
     views(ctx, crate)
     ctx.not_decided("that the merges of and/or/xor preserve order for all inputs; hash < 12*4^depth of pushed values (C01's float clause); sortedness typestate of the root lists (see C12/C13 rules)")
     ctx.extra["exhaustive"] = ctx.tier == "thorough"
+    from rules import controls
+    controls.bits_controls(ctx)
